@@ -113,6 +113,48 @@ Definition add_has_ops (e : add) : bool := match e with AMul _ => false | AOp _ 
 Definition mul_has_ops (m : mul) : bool := match m with MAtom _ => false | MOp _ _ _ _ _ => true end.
 
 (* ---------------------------------------------------------------------------------------- *)
+(* editing a token in place (`number.value = ...`, `number.raw_text = ...`, `op.raw_text = ...`): the
+   i-th leaf token of the tree (store order, parentheses count but cannot be edited) takes the text of
+   `t` when `t` is of the leaf's kind; anything else leaves the tree as it is.                      *)
+Fixpoint na (a : atom) : nat :=
+  match a with
+  | Num _ => 1
+  | Paren _ e _ => 2 + ne e
+  | Unary _ _ a' => 1 + na a'
+  end
+with nm (m : mul) : nat :=
+  match m with MAtom a => na a | MOp m' _ _ _ a => nm m' + 1 + na a end
+with ne (e : add) : nat :=
+  match e with AMul m => nm m | AOp e' _ _ _ m => ne e' + 1 + nm m end.
+
+Fixpoint ea (i : nat) (t : tok) (a : atom) : atom :=
+  match a with
+  | Num s => match i, t with O, TNum s' => Num s' | _, _ => Num s end
+  | Paren g1 e g2 => match i with O => a | S j => Paren g1 (ee j t e) g2 end
+  | Unary b g a' =>
+    match i with
+    | O => match t with TUn b' => Unary b' g a' | _ => a end
+    | S j => Unary b g (ea j t a')
+    end
+  end
+with em (i : nat) (t : tok) (m : mul) : mul :=
+  match m with
+  | MAtom a => MAtom (ea i t a)
+  | MOp m' g1 d g2 a =>
+    if (i <? nm m')%nat then MOp (em i t m') g1 d g2 a
+    else if (i =? nm m')%nat then match t with TMulOp d' => MOp m' g1 d' g2 a | _ => m end
+    else MOp m' g1 d g2 (ea (i - nm m' - 1) t a)
+  end
+with ee (i : nat) (t : tok) (e : add) : add :=
+  match e with
+  | AMul m => AMul (em i t m)
+  | AOp e' g1 b g2 m =>
+    if (i <? ne e')%nat then AOp (ee i t e') g1 b g2 m
+    else if (i =? ne e')%nat then match t with TAddOp b' => AOp e' g1 b' g2 m | _ => e end
+    else AOp e' g1 b g2 (em (i - ne e' - 1) t m)
+  end.
+
+(* ---------------------------------------------------------------------------------------- *)
 (* grammar: token-level recursive descent, one function per rule (+ one per `( ... )*` loop).
    Fuel is only there for termination (5 per lexeme is enough: NumExprProofs.parse_print).       *)
 Fixpoint parse_atom (n : nat) (ts : list lexeme) {struct n} : option (atom * list lexeme) :=
@@ -404,12 +446,22 @@ Section Arith.
     match k with OpAdd => dadd a b | OpSub => dsub a b | OpMul => dmul a b | OpDiv => ddiv a b end.
 
   (* chains of operator applications: the result of one step is `self` of the next *)
-  Inductive step := SBin (k : binop) (f : form) (o : operand) | SUn (minus : bool).
+  Inductive step :=
+  | SBin (k : binop) (f : form) (o : operand)
+  | SUn (minus : bool)
+  | SEdit (i : nat) (t : tok)          (* a token inside the expression is edited in place *)
+  | SSetValue (v : D).                 (* NumberExpr.value = v *)
+
+  (* the value setter: self.raw_number_add_expr = _add_expr_from_value(value) *)
+  Definition set_value (x : nexpr) (v : D) : nexpr := NE (pre x) (add_expr_from_value v) (post x).
+  Definition edit_token (x : nexpr) (i : nat) (t : tok) : nexpr := NE (pre x) (ee i t (body x)) (post x).
 
   Definition apply_step (x : nexpr) (s : step) : res nexpr :=
     match s with
     | SBin k f o => match dunder k f x o with Ok oc => Ok (o_result oc) | Err e => Err e end
     | SUn b => Ok (o_result (dunder_unary b x))
+    | SEdit i t => Ok (edit_token x i t)
+    | SSetValue v => Ok (set_value x v)
     end.
 
   Fixpoint apply_chain (x : nexpr) (l : list step) : res nexpr :=
@@ -424,7 +476,12 @@ Section Arith.
     | SBin k _ o => arith k v (value (coerce o))
     | SUn true => dneg v
     | SUn false => v
+    | SEdit _ _ => v        (* not used for edits: see NumExprProofs.history_value *)
+    | SSetValue w => value (from_value w)
     end.
+
+  (* steps whose effect on the value is the arithmetic one (everything but token edits) *)
+  Definition step_arith (s : step) : bool := match s with SEdit _ _ => false | _ => true end.
 End Arith.
 
 Arguments OInt {D} z.
@@ -432,3 +489,5 @@ Arguments ODec {D} d.
 Arguments OExpr {D} x.
 Arguments SBin {D} k f o.
 Arguments SUn {D} minus.
+Arguments SEdit {D} i t.
+Arguments SSetValue {D} v.
